@@ -55,6 +55,13 @@ pub fn case_table(c: &Case) -> Table {
             t.rows.retain(|_, r| r.iter().any(|x| *x != b'-'));
         }
     }
+    // a quarter of the tables with >= 4 samples: names that are pieces of one another (P1, P1_T2, T2_R1, R1: timepoint
+    // and replicate tags), so that different pairs of names join to the same text
+    if t.nsamples() >= 4 && (c.t.k / 2 + t.nsamples() + t.rows.len()) % 4 == 0 {
+        for (i, nm) in ["P1", "P1_T2", "T2_R1", "R1"].iter().enumerate() {
+            t.names[i] = nm.to_string();
+        }
+    }
     if let Some(e) = c.empty {
         let n = t.nsamples();
         if n >= 3 {
